@@ -113,3 +113,40 @@ Definition h_tick (h : hist) (e : Z) (cnt : Z) (l : list node) (m : gmap bytes n
   mkH (fupd (pubL h) e l) (fupd (pub2 h) e m) (Z.min (win h + 1) cnt) (Z.min (win2 h + 1) cnt).
 Definition h_resize (h : hist) (n : Z) : hist :=
   mkH (pubL h) (pub2 h) (Z.min (win h) n) (Z.min (win2 h) n).
+
+(** The ghost history carried along a run of the model: every successful
+    tick records what it published (the non-Offline legacy candidates and the
+    structured candidates of the moment), every accepted resize narrows the
+    windows. *)
+Section Ghost.
+  Variable sub_ok : bytes -> bool.
+  Variable sub_accepts : bytes -> Z -> bool.
+
+  Definition gstep (sh : nstate * hist) (co : nctx * nop) : nstate * hist :=
+    let s := fst sh in let h := snd sh in
+    let '(s', ok, _) := nstep sub_ok sub_accepts s co in
+    (s', if ok then
+           match snd co with
+           | NewEpoch e => h_tick h e (count s) (filter_netmap s) (cands2 s)
+           | UpdateSnapshotCount n => h_resize h n
+           | _ => h
+           end
+         else h).
+
+  Definition grun (cfg : list (bytes * bytes)) (ops : list (nctx * nop)) : nstate * hist :=
+    fold_left gstep ops (ninit cfg, h_init).
+
+  (** The quantifier's premise "epochs advance by one per tick as the Inner
+      Ring does": every successful tick of the history is [epoch + 1]
+      (a decidable predicate on the history). *)
+  Fixpoint consecutive (s : nstate) (ops : list (nctx * nop)) : bool :=
+    match ops with
+    | [] => true
+    | co :: rest =>
+        let '(s', ok, _) := nstep sub_ok sub_accepts s co in
+        (match snd co with
+         | NewEpoch e => negb ok || (e =? epoch s + 1)
+         | _ => true
+         end) && consecutive s' rest
+    end.
+End Ghost.
